@@ -35,6 +35,10 @@ CHECKS = {
             "Generated well-formed operator/operand sequences over the single-form dictionary operators (and the + - x families), nested fences and author mrows, placed at top level or inside 2-D constructs; oracle A checks every mrow (one priority class or one n-ary family, operand rows bind at least as tightly, no adjacent operands); oracle B requires the bracketing to equal a reference parse computed from operator-info.in priorities, skipped on priority ties between different operators (the dictionary does not define associativity).",
             "operator-info.in is the specification (a changed priority is a changed specification). Chemistry heuristics are switched off (preference Chemistry=Off); atoms avoid function-name and number-merging heuristics.",
             "DESIGN.md 3/C03"),
+    "C04": ("metamorphic property-based testing: distinct decimal literals planted at every operand position of generated textbook expressions must re-occur in the speech",
+            "Generated textbook-grammar expressions with a distinct decimal literal at every operand position x 8 languages x 2 styles x 3 verbosities, plus an enumerated sweep of all 48 configurations over fixed shapes; each literal must occur in get_spoken_text at least as often as in the expression (as a maximal digit/mark run, written with the session's decimal mark); the overview may omit but not alter numbers.",
+            "Only numbers are asserted (identifier wording is language specific). Decimal literals are never turned into words by the rules. Known rule-file and post-processing losses are keyed by structural class x language.",
+            "DESIGN.md 3/C04"),
 }
 
 NOT_YET = "check not built yet in this round (machinery in progress; see DESIGN.md section 7 build order)"
